@@ -1,5 +1,110 @@
-import BandVerif.Model.Signal
+/-
+C07 — property theorems (only): votes never exceed voter power; per-signal totals equal the sum of
+standing votes; current feeds follow the totals.  Model: BandVerif/Model/Signal.lean; the lock sum
+and the interval function are the REGENERATED `Generated.Feeds.lockSum / calculateInterval`.
+Helper lemmas live in BandVerif/Lemmas/Signal.lean.
+-/
+import BandVerif.Lemmas.Signal
+
 namespace C07
-open BandVerif.Signal
-theorem placeholder : (1 : Nat) = 1 := rfl
+open BandVerif.Signal BandVerif.Generated
+
+/-- The power handed to the restake lock is the exact integer sum of the vote's powers
+    (fails to check if `LockVoterPower` goes back to an int64 accumulation). -/
+theorem lockSum_exact (l : List Int) : Feeds.lockSum l = l.sum :=
+  BandVerif.Signal.lockSum_eq_sum l
+
+/-- PROPERTY (first sentence): an accepted vote's true power sum is at most the voter's total
+    power at that moment and is exactly what gets locked under the feeds vault. -/
+theorem vote_bounded_full (p : Params) (st : State) (voter : Nat) (signals : List Sig) (tp : Int)
+    (h : (vote p st voter signals tp).2 = Err.ok) :
+    (signals.map (·.power)).sum ≤ tp ∧
+    (vote p st voter signals tp).1.locks voter = (signals.map (·.power)).sum ∧
+    signals.length ≤ p.maxCurrentFeeds ∧ (∀ s ∈ signals, 0 < s.power) :=
+  BandVerif.Signal.vote_ok_facts p st voter signals tp h
+
+/-- A rejected vote changes nothing. -/
+theorem vote_rejected_changes_nothing (p : Params) (st : State) (voter : Nat) (signals : List Sig) (tp : Int)
+    (h : (vote p st voter signals tp).2 ≠ Err.ok) : (vote p st voter signals tp).1 = st :=
+  BandVerif.Signal.vote_err_state p st voter signals tp h
+
+/-- PROPERTY (second sentence): `Inv` — every signal's stored total is the integer sum of all
+    standing votes for it — is preserved by every vote, accepted or not, as long as the true sums
+    stay below 2^63 (guaranteed by the coin supply, since each voter's sum ≤ its total power). -/
+theorem totals_eq_sum_votes (p : Params) (st : State) (voter : Nat) (signals : List Sig) (tp : Int)
+    (hinv : Inv st)
+    (hb : ∀ id, sumVotes (if voter ∈ st.voters then st.voters else st.voters ++ [voter])
+                  (fun v => if v = voter then signals else st.votes v) id < 9223372036854775808) :
+    Inv (vote p st voter signals tp).1 :=
+  BandVerif.Signal.vote_preserves_inv p st voter signals tp hinv hb
+
+/-- …hence over every history of votes from the empty state. -/
+theorem totals_eq_sum_votes_history (p : Params) (ops : List (Nat × List Sig × Int))
+    (hb : ∀ pre o, pre ++ [o] <+: ops → ∀ id,
+       sumVotes (if o.1 ∈ (runVotes p State.empty pre).voters then (runVotes p State.empty pre).voters
+                 else (runVotes p State.empty pre).voters ++ [o.1])
+                (fun v => if v = o.1 then o.2.1 else (runVotes p State.empty pre).votes v) id
+         < 9223372036854775808) :
+    Inv (runVotes p State.empty ops) :=
+  BandVerif.Signal.runVotes_inv p ops hb
+
+/-- Under the invariant and the same bound a vote is never rejected with "power is negative". -/
+theorem vote_never_power_negative (p : Params) (st : State) (voter : Nat) (signals : List Sig) (tp : Int)
+    (hinv : Inv st)
+    (hb : ∀ id, sumVotes (if voter ∈ st.voters then st.voters else st.voters ++ [voter])
+                  (fun v => if v = voter then signals else st.votes v) id < 9223372036854775808) :
+    (vote p st voter signals tp).2 ≠ Err.powerNegative :=
+  BandVerif.Signal.vote_not_negative p st voter signals tp hinv hb
+
+/-- Lock blocks withdrawal: an allowed unstake leaves total power ≥ the lock. -/
+theorem lock_blocks_withdrawal (st : State) (voter : Nat) (tp amt : Int)
+    (h : unstakeAllowed st voter tp amt = true) : tp - amt ≥ st.locks voter := by
+  simpa [unstakeAllowed] using h
+
+/-- Interval rule: for power ≥ step > 0 (all int64 values) the interval is
+    `max (maxI / (power / step)) minI`, lies in `[minI, max minI maxI]`, and is 0 below the threshold. -/
+theorem interval_spec (power step minI maxI : Int) (hs : 0 < step) (hp : step ≤ power)
+    (hr : power < 9223372036854775808) (hmin : 0 < minI) (hmax : 0 < maxI)
+    (hmaxr : maxI < 9223372036854775808) :
+    Feeds.calculateInterval power step minI maxI = max (maxI / (power / step)) minI ∧
+    minI ≤ Feeds.calculateInterval power step minI maxI ∧
+    Feeds.calculateInterval power step minI maxI ≤ max minI maxI ∧
+    0 < Feeds.calculateInterval power step minI maxI :=
+  BandVerif.Signal.interval_facts power step minI maxI hs hp hr hmin hmax hmaxr
+
+theorem interval_zero_below_threshold (power step minI maxI : Int) (h : power < step) :
+    Feeds.calculateInterval power step minI maxI = 0 := by
+  simp [Feeds.calculateInterval, h]
+
+/-- More power never lengthens the interval. -/
+theorem interval_antitone (p1 p2 step minI maxI : Int) (hs : 0 < step) (h1 : step ≤ p1) (h12 : p1 ≤ p2)
+    (hr : p2 < 9223372036854775808) (hmin : 0 < minI) (hmax : 0 < maxI) (hmaxr : maxI < 9223372036854775808) :
+    Feeds.calculateInterval p2 step minI maxI ≤ Feeds.calculateInterval p1 step minI maxI :=
+  BandVerif.Signal.interval_antitone p1 p2 step minI maxI hs h1 h12 hr hmin hmax hmaxr
+
+/-- PROPERTY (third sentence): the new current-feed list has at most `MaxCurrentFeeds` entries, every
+    entry reaches the threshold with the interval its power determines, entries come in index order,
+    and a signal that reaches the threshold is left out only if `MaxCurrentFeeds` entries precede it. -/
+theorem current_feeds_spec (p : Params) (st : State) (hs : 0 < p.powerStep) (hmin : 0 < p.minInterval)
+    (hmax : 0 < p.maxInterval) (hmaxr : p.maxInterval < 9223372036854775808)
+    (hr : ∀ id, st.totals id < 9223372036854775808) :
+    (newCurrentFeeds p st).length ≤ p.maxCurrentFeeds ∧
+    (∀ f ∈ newCurrentFeeds p st, st.totals f.id = f.power ∧ p.powerStep ≤ f.power ∧
+        f.interval = max (p.maxInterval / (f.power / p.powerStep)) p.minInterval) ∧
+    (newCurrentFeeds p st).map (fun f => (f.power, f.id)) =
+        ((byPowerDesc st).take p.maxCurrentFeeds).filter (fun e => decide (p.powerStep ≤ e.1)) :=
+  BandVerif.Signal.newCurrentFeeds_facts p st hs hmin hmax hmaxr hr
+
+/-! non-vacuity: concrete states meeting the hypotheses -/
+example : (vote ⟨3, 10, 60, 3600⟩ State.empty 1 [⟨"a", 7⟩] 12).2 = Err.ok := by
+  simp [vote, preErr, validateBasic, lockOf, Feeds.lockSum, applyDiffs, touched, insertNew, State.empty, diff64,
+    i64.add, i64.sub, i64.wrap, Feeds.maxSignalIDCharacters, (by decide : "a".utf8ByteSize = 1)]
+example : preErr ⟨3, 10, 60, 3600⟩ [⟨"a", 7⟩, ⟨"b", 5⟩] 12 = Err.ok := by decide
+example : preErr ⟨3, 10, 60, 3600⟩ [⟨"a", 7⟩, ⟨"b", 6⟩] 12 = Err.powerNotEnough := by decide
+/-- the F1 input (2^63-1, 2^63-1, 2) is now rejected: its true sum 2^64 is not a uint64 -/
+example : preErr ⟨3, 10, 60, 3600⟩ [⟨"a", 9223372036854775807⟩, ⟨"b", 9223372036854775807⟩, ⟨"c", 2⟩] 12
+    = Err.invalidPower := by decide
+example : Inv State.empty := BandVerif.Signal.inv_empty
+example : Feeds.calculateInterval 35 10 60 3600 = 1200 := by decide
+
 end C07
